@@ -20,14 +20,6 @@ impl<'a, R, O> RawDataIterator<'a, R, O> {
     }
 }
 //@end
-//@append src/image/sub_image.rs
-#[cfg(kani)]
-impl<'a, T> SubImage<'a, T> {
-    pub(crate) fn verif_area(&self) -> Rectangle {
-        self.area
-    }
-}
-//@end
 
 //@append src/image/image_raw.rs
 #[cfg(kani)]
